@@ -1,5 +1,5 @@
 (* SimCases.v — evaluation helpers for the correspondence of the simulation model. *)
-From V Require Import Model.Num Model.Status Model.Sim Model.SimLoop Gen.StatusC.
+From V Require Import Model.Num Model.Status Model.Sim Model.SimLoop Model.SimGuard Gen.StatusC.
 Open Scope Z_scope.
 
 Definition oobs := (Z * status * list status * list Z * list (Z * Z * Z) * Z * option Z * bool)%type.
@@ -60,3 +60,13 @@ Definition scen_cmp (sc : scen) : Z :=
      else if au then 2000001
      else if runs_eqb u (sc_expect sc) then (if fst txu + snd txu =? fst (sc_tx sc) then 0 else 3000000) else (if 0 <=? first_tx_diff u (sc_expect sc) 0 then 4000000 + first_tx_diff u (sc_expect sc) 0 else 1000 + first_diff u (sc_expect sc) 0))
   else 1.
+
+(* side conditions of the whole-run conservation theorem (Proofs/SimRunP.v run_conserves_b), evaluated per scenario:
+   bit 0 = every placement package found its order as created (must hold on every scenario), bit 1 = the scenario's books and
+   script are in the theorem's domain (no removed runner, no reconciled starting price, positive ladders) *)
+Definition scen_hyp (sc : scen) : Z :=
+  let scr := script_of (sc_script sc) in
+  let g := run_guard_b tb_up (sc_cfg sc) (sc_nstrat sc) scr (sc_events sc) (sim0 (sc_markets sc))
+           && run_guard_b tb_down (sc_cfg sc) (sc_nstrat sc) scr (sc_events sc) (sim0 (sc_markets sc)) in
+  let d := forallb (event_b scr (sc_nstrat sc)) (sc_events sc) in
+  (if g then 1 else 0) + (if d then 2 else 0).
